@@ -288,7 +288,7 @@ func runC13(tier string, _ []string) int {
 		time.Local = time.FixedZone("verif-11", -11*3600)
 	}
 	c.Extra("process_time_zone", time.Local.String())
-	c.SetRule("per case a fresh instance with a real Rule client (client.NewManager + NewRuleClient) and a PRNG rule: 1-4 conditions mixing point conditions (number > < = !=, on/off, text = != contains; node / type / key filters) and schedule conditions (windows placed around the real UTC now: active, inactive, wrap-around; weekday and date filters), 0-3 set-value actions and 0-2 inactive actions with targets inside and outside the watched subtree; then 30-150 acknowledged batches from matching and non-matching nodes, types and keys with values at and around every threshold (+-eps, +-0, +-Inf) (a third of the points carry timestamps hours behind or ahead of the previous ones) and triggers forced through foreign points to the rule node; the process runs in a time zone whose date differs from the UTC date; about one step in ten edits a condition of the running rule (date list grows / shrinks, weekday switched, threshold or text changed), the model follows the rule.configPoints events. Monitor: the verif hook sites rule.process / rule.send / rule.batchDone give the batches in the order the rule really processed them; a tap on the subjects the rule subscribes to shows which batches were delivered (each must be processed, in that order); a reference model of docs/user/rules.md is stepped over the processed sequence and after every batch compares condition states, rule state and the points the rule emitted; at settled points (marker batches through both input paths) the store content (active flags, action flags, target points with the rule as origin) must equal the model. One more rule starts without a schedule condition; its condition is turned into one whose window opens at the next full minute, and it must become active (and run its action) once the clock passes that boundary. distinct = (condition kinds/operators present, number of conditions, state transitions seen)")
+	c.SetRule("per case a fresh instance with a real Rule client (client.NewManager + NewRuleClient) and a PRNG rule: 1-4 conditions mixing point conditions (number > < = !=, on/off, text = != contains; node / type / key filters) and schedule conditions (windows placed around the real UTC now: active, inactive, wrap-around; weekday and date filters), 0-3 set-value actions and 0-2 inactive actions with targets inside and outside the watched subtree; then 30-150 acknowledged batches from matching and non-matching nodes, types and keys with values at and around every threshold (+-eps, +-0, +-Inf) (a third of the points carry timestamps hours behind or ahead of the previous ones) and triggers forced through foreign points to the rule node; the process runs in a time zone whose date differs from the UTC date; about one step in ten edits a condition of the running rule (date list grows / shrinks, weekday switched, threshold or text changed), the model follows the rule.configPoints events. Monitor: the verif hook sites rule.process / rule.send / rule.batchDone give the batches in the order the rule really processed them; a tap on the subjects the rule subscribes to shows which batches were delivered (each must be processed, in that order); a reference model of docs/user/rules.md is stepped over the processed sequence and after every batch compares condition states, rule state and the points the rule emitted; at settled points (marker batches through both input paths) the store content (active flags, action flags, target points with the rule as origin) must equal the model. Two more rules have their set of conditions changed while running (a second condition that does not hold is added to an active rule; the one condition that does not hold is deleted from an inactive rule): with the following batches the stored rule state and the actions' target must follow. One more rule starts without a schedule condition; its condition is turned into one whose window opens at the next full minute, and it must become active (and run its action) once the clock passes that boundary. distinct = (condition kinds/operators present, number of conditions, state transitions seen)")
 	c.Assume("action executions not associated with a change of rule state are tolerated for trigger batches (configuration changes re-run the current list today); NaN inputs are not generated; condition point types are disjoint from action point types so that the rule's own output never re-enters its conditions")
 	nRules := c.N(40, 800)
 	wd := c.NewWatchdog()
@@ -1114,6 +1114,12 @@ func runC13(tier string, _ []string) int {
 			c.Sample(map[string]any{"rule": model, "batches": nB, "transitions": transitions})
 		}
 	})
+	for variant := 0; variant < 2 && !vlib.Aborted(); variant++ {
+		if res := c13ConditionSetChanges(c, variant); res != "" {
+			c.Violate("rule:store-disagrees:after-the-set-of-conditions-changed", res, map[string]any{"seed": c.Seed, "variant": variant})
+			break
+		}
+	}
 	if res := <-patientRule; res != "" {
 		c.Violate("rule:condition-state-wrong:schedule:window-boundary-passes", res, map[string]any{"seed": c.Seed})
 	}
